@@ -5,7 +5,8 @@ from .qmodel import QModel
 
 EXPLANATION = ('R1 sentinel protocol on normal and unwind edges of the spawn closure, R2 Sentinel::drop respawns exactly one '
                'worker and counts exactly once iff armed (unconditionally otherwise), R3 the panicking entry was already '
-               'dequeued and is never re-enqueued, R4 panics() reads the incremented counter.')
+               'dequeued and is never re-enqueued, R4 panics() reads the incremented counter; a panic of the wrapped emit is never caught inside the '
+               'task or run() (catch_unwind modelled as an unwind edge re-entering normal flow).')
 
 
 def check(ctx, rep):
@@ -14,6 +15,7 @@ def check(ctx, rep):
     if not m.ok:
         return
     B.rule_sentinel(m, rep)
+    B.rule_panic_propagates(m, rep)
     A.rule_loop(m, rep, 'R3')
     B.rule_panics_getter(m, rep)
     A.rule_counters(m, rep)
